@@ -412,7 +412,8 @@ structure Returned (st : Settings α) (S : Solver α) (r : SolveResult α) (p l 
   last : r.traj.getLast? = some l
   mem : p ∈ r.traj
   lun : l.info.status = .unsolved
-  data : r.S.st.data = S.st.data
+  /-- the data is untouched except for the two norm caches, which `solve()` fills -/
+  data : Clarabel.Solver.fillNorms S.st.data = .ok r.S.st.data
   vars : r.S.st.variables
     = Unscale.unscale p.vars (equilView S.st.data.equilibration) r.S.st.info.status.isInfeasible
   figs : SameFigures r.S.st.info p.info
